@@ -65,6 +65,23 @@ harness(void)
 		CHECK(rv == NNG_ECLOSED || (rv == NNG_EBUSY && id == S.s_id && S.s_device && !S.s_closed), "the error is NNG_ECLOSED (NNG_EBUSY for a socket owned by a device)");
 		WITNESS("refused");
 	}
+#elif MODE == 3
+	{
+		/* C20: the context cannot be allocated */
+		extern int env_alloc_fail_at, env_alloc_count, env_alloc_failed;
+		nni_ctx *c0    = NULL;
+		int      live0 = env_alloc_live;
+		env_alloc_fail_at = env_alloc_count;
+		int rv = nni_ctx_open(&c0, &S);
+		CHECK(env_alloc_failed && rv == NNG_ENOMEM && c0 == NULL, "a context that cannot be allocated is reported as NNG_ENOMEM");
+		CHECK(ctx_inits == 0 && nni_list_empty(&S.s_ctxs) && env_alloc_live == live0, "nothing is initialised, registered or leaked");
+		u32      q = ND(u32);
+		nni_ctx *o = NULL;
+		CHECK(nni_ctx_find(&o, q) == NNG_ECLOSED, "no id resolves to the context that was not created");
+		env_alloc_fail_at = -1;
+		CHECK(nni_ctx_open(&c0, &S) == 0 && c0 != NULL, "the socket works normally afterwards");
+		WITNESS("allocation failure");
+	}
 #else
 	nni_ctx *ctx = NULL;
 	CHECK(nni_ctx_open(&ctx, &S) == 0 && ctx != NULL && ctx_inits == 1, "context opened");
